@@ -1324,6 +1324,20 @@ class quantized_bits(base_quantizer.BaseQuantizer):  # pylint: disable=invalid-n
     if self.use_stochastic_rounding:
       flags.append("use_stochastic_rounding=" +
                    str(int(self.use_stochastic_rounding)))
+    # options that change the quantization function; lists use the blank
+    # separated syntax that the string parser understands.
+    for name in ["scale_axis", "elements_per_scale", "min_po2_exponent",
+                 "max_po2_exponent"]:
+      value = getattr(self, name)
+      if value is not None:
+        if isinstance(value, (list, tuple)):
+          value = "[" + " ".join([str(v) for v in value]) + "]"
+        flags.append(name + "=" + str(value))
+    qnoise_factor = (
+        self.qnoise_factor.numpy() if isinstance(
+            self.qnoise_factor, tf.Variable) else self.qnoise_factor)
+    if qnoise_factor != 1.0:
+      flags.append("qnoise_factor=" + str(float(qnoise_factor)))
     return "quantized_bits(" + ",".join(flags) + ")"
 
   def __call__(self, x):
